@@ -1,38 +1,58 @@
 ------------------------------ MODULE GroupMC ------------------------------
 (* Client programs of the model-checking runs of Group.tla (threads are 1..3; Prog[t] is a
-   sequence of SETS of operations: at each position the client chooses any member). *)
+   sequence of SETS of operations <<kind, group, body>>: at each position the client chooses any member).
+   The one-group programs are written with the kind only and lifted to group 1. *)
 EXTENDS Group
 
 T3 == {1, 2, 3}
-T2W == {1, 2, 3}          \* with thread 3 as the worker completing dispatch_group_async blocks
+T2W == {1, 2, 3}          \* with thread 3 as the worker running dispatch_group_async blocks
+G1 == {1}
+G2 == {1, 2}
+
+Lift(p) == [t \in DOMAIN p |-> [i \in DOMAIN p[t] |-> {<<k, 1, 0>> : k \in p[t][i]}]]
 
 \* Appendix C of DESIGN.md: the program on which F2 was found
-ProgF2 == << <<{"enter"}, {"leave"}>>,
-             <<{"enter"}, {"notify"}, {"leave"}, {"wait"}>>,
-             <<{"notify"}, {"enter"}, {"leave"}, {"waitT"}>> >>
+ProgF2 == Lift(<< <<{"enter"}, {"leave"}>>,
+                  <<{"enter"}, {"notify"}, {"leave"}, {"wait"}>>,
+                  <<{"notify"}, {"enter"}, {"leave"}, {"waitT"}>> >>)
 
 \* liveness runs (TLC's liveness checking is far more expensive than safety)
-ProgLive1 == << <<{"enter"}, {"leave"}>>,
-                <<{"wait", "waitT"}>>,
-                <<{"notify"}>> >>
-ProgLive2 == << <<{"enter"}, {"notify"}, {"leave"}>>,
-                <<{"enter"}, {"waitT"}, {"leave"}>>,
-                <<{"wait"}>> >>
+ProgLive1 == Lift(<< <<{"enter"}, {"leave"}>>,
+                     <<{"wait", "waitT"}>>,
+                     <<{"notify"}>> >>)
+ProgLive2 == Lift(<< <<{"enter"}, {"notify"}, {"leave"}>>,
+                     <<{"enter"}, {"waitT"}, {"leave"}>>,
+                     <<{"wait"}>> >>)
 
 \* two generations, a notifier per generation, untimed + timed + polling waiters
-ProgGen == << <<{"enter"}, {"leave"}, {"enter"}, {"notify", "skip"}, {"leave"}>>,
-              <<{"wait", "waitT", "waitN"}, {"notify", "enter"}, {"leave", "wait"}>>,
-              <<{"enter", "skip"}, {"waitT", "wait"}, {"leave", "skip"}>> >>
+ProgGen == Lift(<< <<{"enter"}, {"leave"}, {"enter"}, {"notify", "skip"}, {"leave"}>>,
+                   <<{"wait", "waitT", "waitN"}, {"notify", "enter"}, {"leave", "wait"}>>,
+                   <<{"enter", "skip"}, {"waitT", "wait"}, {"leave", "skip"}>> >>)
 
 \* free choice: every thread picks any operation
 AnyOp == {"enter", "leave", "notify", "wait", "waitT", "waitN"}
-ProgAny == << <<AnyOp, AnyOp>>, <<AnyOp, AnyOp>>, <<{"enter", "notify", "waitT"}, {"leave", "notify", "wait"}>> >>
+ProgAny == Lift(<< <<AnyOp, AnyOp>>, <<AnyOp, AnyOp>>, <<{"enter", "notify", "waitT"}, {"leave", "notify", "wait"}>> >>)
 
 \* dispatch_group_async: thread 3 is the worker that runs the blocks and then leaves
-ProgAsync == << <<{"async"}, {"notify", "waitN"}, {"wait", "waitT"}, {"async", "skip"}>>,
-                <<{"async", "enter"}, {"notify", "wait", "waitT"}, {"leave", "skip"}>>,
-                <<>> >>
+ProgAsync == Lift(<< <<{"async"}, {"notify", "waitN"}, {"wait", "waitT"}, {"async", "skip"}>>,
+                     <<{"async", "enter"}, {"notify", "wait", "waitT"}, {"leave", "skip"}>>,
+                     <<>> >>)
 
 \* the observation NoMissedZero (not judged, see tools/props/C07.py)
-ProgMiss == << <<{"enter"}, {"leave"}, {"enter"}>>, <<{"notify"}>>, <<{"notify"}>> >>
+ProgMiss == Lift(<< <<{"enter"}, {"leave"}, {"enter"}>>, <<{"notify"}>>, <<{"notify"}>> >>)
+
+(* ---- two groups: A = 1, B = 2; the block of an item of A works on B from inside its body ---- *)
+\* client 1: dispatch_group_async(A, ^{ dispatch_group_async(B, ^{}) | enter(B); leave(B) | dispatch_group_notify(B) })
+\* then waits for / is notified of A;
+\* client 2 observes B (notify, untimed / timed wait) and has work of its own in B
+Prog2G == << <<{<<"async", 1, 1>>, <<"async", 1, 2>>, <<"async", 1, 3>>}, {<<"wait", 1, 0>>, <<"notify", 1, 0>>}>>,
+             <<{<<"notify", 2, 0>>, <<"wait", 2, 0>>, <<"waitT", 2, 0>>}, {<<"enter", 2, 0>>, <<"skip", 2, 0>>},
+               {<<"leave", 2, 0>>, <<"skip", 2, 0>>}>>,
+             <<>> >>
+\* thorough: every body (async / enter+leave / notify on the other group, same group first), either group first
+AnyBody == {<<"async", 1, 1>>, <<"async", 1, 2>>, <<"async", 1, 3>>, <<"async", 1, 4>>, <<"async", 1, 5>>}
+Prog2GT == << <<AnyBody, {<<"wait", 1, 0>>, <<"notify", 1, 0>>, <<"waitT", 2, 0>>}>>,
+              <<{<<"notify", 2, 0>>, <<"wait", 2, 0>>, <<"async", 2, 1>>, <<"enter", 2, 0>>},
+                {<<"wait", 2, 0>>, <<"waitT", 1, 0>>, <<"leave", 2, 0>>, <<"skip", 2, 0>>}>>,
+              <<>> >>
 =============================================================================
